@@ -1,5 +1,184 @@
+/-
+Helper lemmas for C16: the policing function against its specification, the attribute lists of the
+two error responses, and the bound on the number of attributes an accepted message exposes.
+-/
 import StunVerif.Spec.Police
 import StunVerif.Spec.Builder
 import StunVerif.Lemmas.Builder
 namespace StunVerif
+open Spec
+
+/-! ### the verdict -/
+
+theorem unsupported_filter_eq (types sup : List Nat) :
+    (types.filter fun t => comprehensionRequired t && !sup.contains t) =
+      types.filter fun t => decide (t < 0x8000 ∧ t ∉ sup) := by
+  apply List.filter_congr
+  intro t _
+  simp [comprehensionRequired]
+
+theorem required_any_iff (types req : List Nat) :
+    (req.any fun t => !types.contains t) = true ↔ ∃ r ∈ req, r ∉ types := by
+  simp
+
+theorem police_unfold (types sup req : List Nat) :
+    Spec.police types sup req =
+      if (types.filter fun t => decide (t < 0x8000 ∧ t ∉ sup)) ≠ [] then
+        .unknown420 (types.filter fun t => decide (t < 0x8000 ∧ t ∉ sup))
+      else if ∃ r ∈ req, r ∉ types then .bad400 else .pass := rfl
+
+theorem checkAttributeTypes_eq (m : Msg) (sup req : List Nat) :
+    checkAttributeTypes m sup req =
+      match Spec.police (m.iter.map (·.ty)) sup req with
+      | .unknown420 u => some (unknownAttributesResp m u)
+      | .bad400 => some (badRequestResp m)
+      | .pass => none := by
+  rw [police_unfold]
+  unfold checkAttributeTypes
+  simp only [unsupported_filter_eq]
+  generalize (List.filter (fun t => decide (t < 0x8000 ∧ t ∉ sup)) (m.iter.map (·.ty))) = u
+  cases u with
+  | nil =>
+    simp only [List.isEmpty_nil, Bool.not_true, Bool.false_eq_true, if_false, ne_eq,
+      not_true_eq_false]
+    by_cases hr : ∃ r ∈ req, r ∉ (m.iter.map (·.ty))
+    · rw [if_pos ((required_any_iff _ _).mpr hr), if_pos hr]
+    · rw [if_neg (fun h => hr ((required_any_iff _ _).mp h)), if_neg hr]
+  | cons x xs => simp
+
+theorem police_unknown (types sup req u : List Nat)
+    (h : Spec.police types sup req = .unknown420 u) :
+    u ≠ [] ∧ u = types.filter fun t => decide (t < 0x8000 ∧ t ∉ sup) := by
+  rw [police_unfold] at h
+  split at h
+  · rename_i hne
+    injection h with h
+    subst h
+    exact ⟨hne, rfl⟩
+  · split at h <;> cases h
+
+/-! ### how many attributes a message exposes -/
+
+theorem rawFromBytes_ok_length {data : Bytes} {a : RawAttr} (h : rawFromBytes data = .ok a) :
+    4 ≤ data.length := by
+  unfold rawFromBytes at h
+  split at h
+  · simp only [List.length_cons]; omega
+  · cases h
+
+theorem iterGo_length (fuel : Nat) : ∀ (data : Bytes) (seen lastMI : Bool),
+    4 * (iterGo fuel data seen lastMI).length ≤ data.length := by
+  induction fuel with
+  | zero => intro data seen lastMI; simp [iterGo]
+  | succ fuel ih =>
+    intro data seen lastMI
+    unfold iterGo
+    split
+    · simp
+    · cases hr : rawFromBytes data with
+      | error e => simp
+      | ok a =>
+        simp only
+        have h4 := rawFromBytes_ok_length hr
+        have hp := paddedLen_ge a
+        have key : ∀ s l, 4 * (iterGo fuel (data.drop a.paddedLen) s l).length + 4 ≤ data.length := by
+          intro s l
+          have := ih (data.drop a.paddedLen) s l
+          rw [List.length_drop] at this
+          by_cases hle : a.paddedLen ≤ data.length
+          · omega
+          · have : (iterGo fuel (data.drop a.paddedLen) s l).length = 0 := by omega
+            omega
+        split
+        · split
+          · have := key true false; simp only [List.length_cons]; omega
+          · split
+            · have := key true false; simp only [List.length_cons]; omega
+            · have := key true false; omega
+        · have := key (decide (a.ty = tyMI) || decide (a.ty = tyMI256)) (decide (a.ty = tyMI))
+          simp only [List.length_cons]; omega
+
+theorem accepted_length {b : Bytes} {m : Msg} (hp : msgFromBytes b = .ok m) :
+    m.data = b ∧ 20 ≤ b.length ∧ b.length ≤ 65535 + 20 := by
+  obtain ⟨hm, h20, _, _, hl, _⟩ := (msgFromBytes_ok_iff b m).mp hp
+  have := beNat_take2_lt (b.drop 2)
+  refine ⟨by rw [hm], h20, by omega⟩
+
+theorem iter_length_lt {b : Bytes} {m : Msg} (hp : msgFromBytes b = .ok m) :
+    m.iter.length < 16384 := by
+  obtain ⟨hm, h20, hl⟩ := accepted_length hp
+  have := iterGo_length m.data.length (m.data.drop 20) false false
+  rw [List.length_drop, hm] at this
+  unfold Msg.iter
+  rw [hm]
+  omega
+
+/-! ### the response builders -/
+
+theorem addOrSame_fresh (b : Builder) (a : BAttr)
+    (h : ∀ t ∈ b.types, t ∉ [a.ty, tyMI, tyMI256, tyFP]) :
+    addOrSame b a = { b with attrs := b.attrs ++ [a], types := b.types ++ [a.ty] } := by
+  unfold addOrSame Builder.add
+  rw [(addGuard_ok_iff b a.ty).mpr h]
+
+def softwareAttr : BAttr := .typed (.software (asciiBytes "stun-types"))
+def errorAttr (code : Nat) (reason : String) : BAttr := .typed (.errorCode code (asciiBytes reason))
+
+theorem errorResp_two (src : Msg) (code : Nat) (reason : String) :
+    addOrSame (addOrSame (errorBuilder src) softwareAttr) (errorAttr code reason) =
+      ⟨Spec.interleave 3 src.method, src.tid, [softwareAttr, errorAttr code reason],
+        [0x8022, 0x0009]⟩ := by
+  rw [addOrSame_fresh (errorBuilder src) softwareAttr (by simp [errorBuilder, Builder.new])]
+  rw [addOrSame_fresh _ _ (by
+    simp [errorBuilder, Builder.new, softwareAttr, errorAttr, BAttr.ty, AttrVal.kind, Kind.code,
+      tyMI, tyMI256, tyFP])]
+  rfl
+
+theorem badRequestResp_eq (src : Msg) :
+    badRequestResp src =
+      ⟨Spec.interleave 3 src.method, src.tid,
+        [.raw ⟨0x8022, asciiBytes "stun-types"⟩,
+         .raw ⟨0x0009, (AttrVal.errorCode 400 (asciiBytes "Bad Request")).valueBytes⟩],
+        [0x8022, 0x0009]⟩ := by
+  unfold badRequestResp
+  simp only []
+  have := errorResp_two src 400 "Bad Request"
+  simp only [softwareAttr, errorAttr] at this
+  rw [this]
+  rfl
+
+theorem unknownAttributesResp_nil (src : Msg) :
+    unknownAttributesResp src [] =
+      ⟨Spec.interleave 3 src.method, src.tid,
+        [.raw ⟨0x8022, asciiBytes "stun-types"⟩,
+         .raw ⟨0x0009, (AttrVal.errorCode 420 (asciiBytes "Unknown Attributes")).valueBytes⟩],
+        [0x8022, 0x0009]⟩ := by
+  unfold unknownAttributesResp
+  simp only []
+  have := errorResp_two src 420 "Unknown Attributes"
+  simp only [softwareAttr, errorAttr] at this
+  rw [this]
+  rfl
+
+theorem unknownAttributesResp_cons (src : Msg) (u : List Nat) (hu : u ≠ []) :
+    unknownAttributesResp src u =
+      ⟨Spec.interleave 3 src.method, src.tid,
+        [.raw ⟨0x8022, asciiBytes "stun-types"⟩,
+         .raw ⟨0x0009, (AttrVal.errorCode 420 (asciiBytes "Unknown Attributes")).valueBytes⟩,
+         .raw ⟨0x000A, u.flatMap enc16⟩],
+        [0x8022, 0x0009, 0x000A]⟩ := by
+  unfold unknownAttributesResp
+  simp only []
+  have := errorResp_two src 420 "Unknown Attributes"
+  simp only [softwareAttr, errorAttr] at this
+  rw [this]
+  have he : (!u.isEmpty) = true := by
+    cases u with
+    | nil => exact absurd rfl hu
+    | cons x xs => rfl
+  rw [if_pos he]
+  rw [addOrSame_fresh _ _ (by
+    simp [BAttr.ty, AttrVal.kind, Kind.code, tyMI, tyMI256, tyFP])]
+  rfl
+
 end StunVerif
